@@ -1004,6 +1004,9 @@ class Evaluator(object):
             if mname in MUTATOR_METHODS and not _is_module_term(base):
                 self.site("mutate", node, how="method:" + mname, old=base, root=_root_name(node.func.value), key=tm.none(), val=tm.tup(args), target=node.func.value)
             return t
+        dist = self.distribute_ite(fn, args, kw, node, via_filter) if self._wants_distribution(fn, args, kw) else None
+        if dist is not None:
+            return dist
         inl = self.try_inline(fn, args, kw, node)
         if inl is not None:
             return inl
@@ -1032,7 +1035,7 @@ class Evaluator(object):
     def canonical_args(self, fn, args, kw):
         """f(a, b, w) and f(a, b, window=w) are the same call: keyword arguments of a repo callee are moved to their
         positional slots as long as the slots are contiguous (no star arguments, no gap)."""
-        if fn is None or fn.op not in ("func", "localfunc") or not kw:
+        if fn is None or fn.op not in ("func", "localfunc"):
             return args, kw
         q = fn.a[0]
         if not self.P.has_func(q) or any(a.op == "star" for a in args):
@@ -1046,7 +1049,60 @@ class Evaluator(object):
         while len(args) < len(params) and params[len(args)] in kwd:
             args.append(kwd.pop(params[len(args)]))
         rest = tuple((k, v) for k, v in kw if k == "**" or k in kwd)
+        # an argument that spells out the callee's own literal default is no argument
+        rest = tuple((k, v) for k, v in rest if not (k != "**" and self._is_default(g, k, v)))
+        if not rest:
+            while args and len(args) <= len(params) and self._is_default(g, params[len(args) - 1], args[-1]):
+                args.pop()
         return tuple(args), rest
+
+    def _is_default(self, g, pname, v):
+        if pname not in g.defaults or v.op != "const":
+            return False
+        okd, dv = g.default_value(pname)
+        return okd and type(dv) is type(v.a[0]) and dv == v.a[0] if not isinstance(dv, (int, float)) or isinstance(dv, bool) else (okd and v.op == "const" and isinstance(v.a[0], (int, float)) and not isinstance(v.a[0], bool) and float(dv) == float(v.a[0]))
+
+    def _wants_distribution(self, fn, args, kw):
+        """only where a *callable* is chosen conditionally (distance=f if flag else None): the two alternatives are
+        different algorithms, which the rules tell apart by the callee's arguments"""
+        for v in list(args) + [v for k, v in kw if k != "**"]:
+            if v.op == "ite" and any(z.op in ("func", "localfunc") for z in (v.a[1], v.a[2])):
+                return True
+        return False
+
+    def distribute_ite(self, fn, args, kw, node, via_filter):
+        """f(a, x if c else y) is (f(a, x) if c else f(a, y)): a repo call with exactly one conditional argument is
+        recorded as the two calls it stands for, each under its own branch condition."""
+        if fn is None or fn.op != "func" or not self.P.has_func(fn.a[0]):
+            return None
+        slots = [("a", i) for i, a in enumerate(args) if a.op == "ite"] + [("k", i) for i, (k, v) in enumerate(kw) if k != "**" and v.op == "ite"]
+        if len(slots) != 1:
+            return None
+        kind, i = slots[0]
+        it = args[i] if kind == "a" else kw[i][1]
+        c = it.a[0]
+        if any(x.op in ("loopvar",) for x in tm.walk(c)) and False:
+            return None
+        out = []
+        saved = self.pc
+        for pol, alt in ((True, it.a[1]), (False, it.a[2])):
+            a2 = list(args)
+            k2 = list(kw)
+            if kind == "a":
+                a2[i] = alt
+            else:
+                k2[i] = (kw[i][0], alt)
+            a2, k2 = self.canonical_args(fn, tuple(a2), tuple(k2))
+            self.pc = saved + (("if", c, pol, None),)
+            inl = self.try_inline(fn, a2, k2, node)
+            if inl is not None:
+                out.append(inl)
+            else:
+                t = self.apply(fn, a2, k2)
+                self.site("call", node, callee=tm.callee_name(fn), fn=fn, base=None, args=a2, kw=k2, term=t, via_filter=via_filter, method=None)
+                out.append(t)
+        self.pc = saved
+        return tm.ite(c, out[0], out[1])
 
     def try_inline(self, fn, args, kw, node):
         """A call of a repo function that is not part of the reference inventory (a helper introduced after the
